@@ -10,7 +10,7 @@ From Coq Require Import QArith Qcanon ZArith List Arith Field.
 From Verif.lib Require Import Bsp.
 From Verif.C02 Require Import Proofs Proofs_ref.
 From Verif.C02 Require Import Proofs_ndu Proofs_deriv Proofs_single.
-From Verif.C07 Require Import Model Proofs Discharge Ends Hess More Algebra Disk Chain.
+From Verif.C07 Require Import Model Proofs Discharge Ends Hess More Algebra Disk Chain NurbsOps ArcModel.
 Import ListNotations.
 Open Scope Qc_scope.
 
@@ -464,3 +464,141 @@ Print Assumptions arc_segment_endpoints.
 Print Assumptions arc_segments_chain.
 Print Assumptions quarter_annulus_radii.
 Print Assumptions quarter_annulus_axes.
+
+(* ==== the NURBS branches of the operations (coq/C07/NurbsOps.v) ==================================== *)
+(* hypotheses: non-zero weights (co f idx (wcomp f)) and a non-zero weight function at the point; no
+   partition of unity is needed, the weight functions cancel *)
+
+(* NurbsFunc.apply_matrix: A applied to the values; the weights are unchanged *)
+Theorem nurbs_apply_matrix_spec : forall f A rows us c,
+  (c < rows)%nat -> (forall idx, co f idx (wcomp f) <> 0) -> g_val f us (wcomp f) <> 0 ->
+  n_val (n_matrix f A rows) us c = rdot 0 (map (A c) (seq 0 (wcomp f))) (fun k => n_val f us k).
+Proof. exact n_matrix_spec_l. Qed.
+
+(* rotate_2d(angle) with (c, s) = (cos, sin)(angle): (x, y) -> (c x - s y, s x + c y), B-spline and NURBS;
+   with c^2 + s^2 = 1 it preserves the distance from the origin *)
+Theorem rotate_spec : forall f c s us, nc f = 2%nat ->
+  g_val (b_rotate f c s) us 0 = c * g_val f us 0 - s * g_val f us 1
+  /\ g_val (b_rotate f c s) us 1 = s * g_val f us 0 + c * g_val f us 1.
+Proof. exact rotate_spec_l. Qed.
+
+Theorem nurbs_rotate_spec : forall f c s us, wcomp f = 2%nat ->
+  (forall idx, co f idx (wcomp f) <> 0) -> g_val f us (wcomp f) <> 0 ->
+  n_val (n_rotate f c s) us 0 = c * n_val f us 0 - s * n_val f us 1
+  /\ n_val (n_rotate f c s) us 1 = s * n_val f us 0 + c * n_val f us 1.
+Proof. exact n_rotate_spec_l. Qed.
+
+Theorem rotate_isometry : forall f c s us, nc f = 2%nat -> c * c + s * s = 1 ->
+  g_val (b_rotate f c s) us 0 * g_val (b_rotate f c s) us 0 + g_val (b_rotate f c s) us 1 * g_val (b_rotate f c s) us 1
+  = g_val f us 0 * g_val f us 0 + g_val f us 1 * g_val f us 1.
+Proof. exact rotate_isometry_l. Qed.
+
+(* outer_sum / outer_product / tensor_product of two NurbsFuncs (coefficients C1 + C2 resp. C1 C2, weights W1 W2):
+   G(x, y) = G1(y) + G2(x), G1(y) G2(x), G2(x) x G1(y); u1 / u2 are the coordinates of G1 / G2 in knot-vector order *)
+Theorem nurbs_outer_sum_spec : forall f1 f2 u1 u2, length u1 = sdim f1 ->
+  (forall idx, co f1 idx (wcomp f1) <> 0) -> (forall idx, co f2 idx (wcomp f2) <> 0) ->
+  g_val f1 u1 (wcomp f1) <> 0 -> g_val f2 u2 (wcomp f2) <> 0 ->
+  forall c, (c < wcomp f1)%nat ->
+  n_val (n_outer_sum f1 f2) (u1 ++ u2) c = n_val f1 u1 c + n_val f2 u2 c.
+Proof. exact n_outer_sum_spec_l. Qed.
+
+Theorem nurbs_outer_product_spec : forall f1 f2 u1 u2, length u1 = sdim f1 ->
+  (forall idx, co f1 idx (wcomp f1) <> 0) -> (forall idx, co f2 idx (wcomp f2) <> 0) ->
+  g_val f1 u1 (wcomp f1) <> 0 -> g_val f2 u2 (wcomp f2) <> 0 ->
+  forall c, (c < wcomp f1)%nat ->
+  n_val (n_outer_product f1 f2) (u1 ++ u2) c = n_val f1 u1 c * n_val f2 u2 c.
+Proof. exact n_outer_product_spec_l. Qed.
+
+Theorem nurbs_tensor_product_spec : forall f1 f2 u1 u2, length u1 = sdim f1 ->
+  (forall idx, co f1 idx (wcomp f1) <> 0) -> (forall idx, co f2 idx (wcomp f2) <> 0) ->
+  g_val f1 u1 (wcomp f1) <> 0 -> g_val f2 u2 (wcomp f2) <> 0 ->
+  forall c, (c < wcomp f2 + wcomp f1)%nat ->
+  n_val (n_tensor_product f1 f2) (u1 ++ u2) c
+  = if (c <? wcomp f2)%nat then n_val f2 u2 c else n_val f1 u1 (c - wcomp f2).
+Proof. exact n_tensor_product_spec_l. Qed.
+
+(* mixed operands: the BSplineFunc G1 is converted by as_nurbs() (weights 1) and the NURBS branch is taken *)
+Theorem mixed_outer_spec : forall f1 f2 u1 u2 c,
+  length u1 = sdim f1 -> length u2 = sdim f2 -> (c < nc f1)%nat -> pou_at (kvs f1) u1 ->
+  (forall idx, co f2 idx (wcomp f2) <> 0) -> g_val f2 u2 (wcomp f2) <> 0 ->
+  n_val (n_outer_sum (b_as_nurbs f1) f2) (u1 ++ u2) c = g_val f1 u1 c + n_val f2 u2 c
+  /\ n_val (n_outer_product (b_as_nurbs f1) f2) (u1 ++ u2) c = g_val f1 u1 c * n_val f2 u2 c.
+Proof. exact mixed_outer_spec_l. Qed.
+
+(* UserFunction: __call__, pointwise_eval and grid_eval (utils.grid_eval: reversed mesh) of ANY callable agree,
+   and so do the routes of its boundary restriction *)
+Theorem user_routes_agree : forall (A B : Type) (fn : list A -> B) xs axis fixed,
+  u_pw fn xs = u_call fn xs /\ u_grid fn (rev xs) = u_call fn xs
+  /\ ((axis <= length xs)%nat ->
+      bf_call (u_call fn) axis fixed xs = bf_grid (u_grid fn) axis fixed (rev xs)).
+Proof. exact user_routes_agree_l. Qed.
+
+(* ==== the arc constructors as functions of the model (coq/C07/ArcModel.v) ============================= *)
+(* The quadratic B-splines of make_knots(2, 0, 1, n, mult=2) are the Bernstein polynomials of each span (bez_N2,
+   arc5_N2, arc7_N2: proved from the Cox-de Boor recursion for every t in [0, 1]); hence the values g_val that all
+   evaluation routes of the model compute for circular_arc_3pt / _5pt (semicircle) / _7pt (circle) -- numerator
+   (X, Y), weight W -- satisfy X^2 + Y^2 = (r W)^2 for EVERY parameter value t in [0,1], every radius r and every
+   (c, s) with c^2 + s^2 = 1 ((cos, sin) of alpha/2, alpha/4, alpha/6): the curve lies on the circle of radius r. *)
+Theorem arc3_model_on_circle : forall c s r t, c * c + s * s = 1 -> 0 <= t -> t <= 1 ->
+  let X := g_val (arc3_fn c s r) [t] 0 in let Y := g_val (arc3_fn c s r) [t] 1 in
+  let W := g_val (arc3_fn c s r) [t] 2 in
+  X * X + Y * Y = (r * W) * (r * W)
+  /\ (W <> 0 -> n_val (arc3_fn c s r) [t] 0 * n_val (arc3_fn c s r) [t] 0
+               + n_val (arc3_fn c s r) [t] 1 * n_val (arc3_fn c s r) [t] 1 = r * r).
+Proof. exact arc3_model_on_circle_l. Qed.
+
+Theorem arc5_model_on_circle : forall c s r t, c * c + s * s = 1 -> 0 <= t -> t <= 1 ->
+  let X := g_val (arc5_fn c s r) [t] 0 in let Y := g_val (arc5_fn c s r) [t] 1 in
+  let W := g_val (arc5_fn c s r) [t] 2 in
+  X * X + Y * Y = (r * W) * (r * W).
+Proof. exact arc5_model_on_circle_l. Qed.
+
+(* the 5-point arc starts at (r, 0) and ends at r d_4 = r (cos alpha, sin alpha), both with weight 1 *)
+Theorem arc5_model_endpoints : forall c s r,
+  g_val (arc5_fn c s r) [0] 0 = r /\ g_val (arc5_fn c s r) [0] 1 = 0 /\ g_val (arc5_fn c s r) [0] 2 = 1
+  /\ g_val (arc5_fn c s r) [1] 0 = co (arc5_fn c s r) [4%nat] 0
+  /\ g_val (arc5_fn c s r) [1] 1 = co (arc5_fn c s r) [4%nat] 1 /\ g_val (arc5_fn c s r) [1] 2 = 1.
+Proof. exact arc5_model_endpoints_l. Qed.
+
+Theorem arc7_model_on_circle : forall c s r t, c * c + s * s = 1 -> 0 <= t -> t <= 1 ->
+  let X := g_val (arc7_fn c s r) [t] 0 in let Y := g_val (arc7_fn c s r) [t] 1 in
+  let W := g_val (arc7_fn c s r) [t] 2 in
+  X * X + Y * Y = (r * W) * (r * W).
+Proof. exact arc7_model_on_circle_l. Qed.
+
+(* NOT PROVED -- clause by clause account of the property text (everything not listed has a theorem above):
+   * routes agree / Jacobians / Hessians: proved for B-spline, NURBS, ComposedFunction with B-spline operands
+     (composed_routes), any callable (user_routes_agree) and any boundary restriction (the boundary_function theorems).
+     Without theorem: ComposedFunction with NURBS operands (same algebra, not stated); the Hessian of a
+     ComposedFunction (pyiga has none); apply_tprod / np.einsum are modelled by their contract (tp_eval), their loops
+     are C16/C09's subject.
+   * "Jacobians and Hessians equal the derivatives": proved relative to the Cox-de Boor derivative recursion dNref
+     (jacobian_is_derivative, hessian_is_derivative, nurbs_jacobian_quotient_rule, nurbs_hessian_quotient_rule, nurbs_hessian_is_derivative); that dNref
+     is the analytic derivative of Nref as a real function is not stated in Coq (no calculus over Qc).
+   * operations: translate, scale, rotate, matrix, outer sum/product, tensor product, extrusion, getitem, as_nurbs,
+     boundary, support restriction, copy all have theorems for BSplineFunc and NurbsFunc operands, except:
+     NurbsFunc.__getitem__/boundary/copy are stated on the premultiplied model (nurbs_getitem_spec,
+     nurbs_boundary_is_trace, copy_spec) -- complete; tensor_product with more than two operands (a fold of the binary
+     one), perturb (random) and find_inverse (scipy optimiser) have no theorem.
+   * circular arcs / circles / disks / annuli: 3-, 5-, 7-point arcs proved on the model for every t (above), for
+     rational (c, s); for arbitrary fields in Bezier form (arc_segment_on_circle). Without theorem on the model:
+     the end point / angle of the 7-point arc (only arc_segment_endpoints + arc_segments_chain), the dispatch of
+     circular_arc(alpha) on alpha < pi (real-number comparison), quarter_annulus and disk as model functions (their
+     weight 1/sqrt 2 resp. cos(pi/4) is not rational: proved over an arbitrary field only, quarter_annulus_radii,
+     disk_boundary_on_circle), the interior of the disk, np.cos / np.sin rounding (bounded by the tie).
+   * "no operation alters the object": aliasing is not expressible in the functional model; monitored on the
+     implementation by snapshots around every call (oracle only). *)
+
+Print Assumptions nurbs_apply_matrix_spec.
+Print Assumptions rotate_spec.
+Print Assumptions nurbs_rotate_spec.
+Print Assumptions rotate_isometry.
+Print Assumptions nurbs_outer_sum_spec.
+Print Assumptions nurbs_outer_product_spec.
+Print Assumptions nurbs_tensor_product_spec.
+Print Assumptions mixed_outer_spec.
+Print Assumptions user_routes_agree.
+Print Assumptions arc3_model_on_circle.
+Print Assumptions arc5_model_on_circle.
+Print Assumptions arc5_model_endpoints.
+Print Assumptions arc7_model_on_circle.
